@@ -219,10 +219,9 @@ def check(case, ctx):
             if dc:
                 envs["integrator_roots"] = ref.grid_envs(tr, data, "integrator_roots", degree=m["degree"])
             lists.append(c04.instance_slacks(c, envs, tr, N, M))
-        per_el = 2 if c["rel"] == "box" else 1
         exp = Rows()
         for j in range(len(lists[0])):
-            el = (j // per_el) % n
+            el = lists[0][j][2]
             vec = np.array([lists[i][j][1] for i in range(K)]) / scv[el]
             (exp.add_eq if lists[0][j][0] == "e" else exp.add_ineq)(vec)
         _, missing = subtract_rows(rowsA, exp, rtol=1e-8, atol=1e-9)
